@@ -11,12 +11,11 @@ Engine B only (level "other").  Two layers, both on the REAL pydra code:
           what each job *received* (F returns all of its inputs), non-split fields unchanged;
           a rejected request must not have called F nor created a python-* job directory.
 
-This module also hosts the harness shared with C02 / C04 / C05 (state_run, e2e_run, pmap).
+This module also hosts the harness shared with C02 / C04 / C05 (state_run, E2E, pmap, Phases).
 """
 
 from __future__ import annotations
 
-import itertools
 import multiprocessing as mp
 import os
 import random
